@@ -137,6 +137,10 @@ pub(crate) struct Env {
     ///
     /// Used for 'evaluate up to cursor'.
     pub(crate) stop_at_expr_id: Option<SyntaxId>,
+    /// When `stop_at_expr_id` is a `for` loop, stop as soon as the
+    /// first iteration has been entered rather than when the loop
+    /// has finished. Only 'evaluate up to cursor' wants this.
+    pub(crate) stop_at_loop_entry: bool,
 
     /// Refuse to run code might modify the system, such as filesystem
     /// access or shell commands. This should allow us to run
@@ -213,6 +217,7 @@ impl Env {
             stack_limit: None,
             enforce_sandbox: false,
             stop_at_expr_id: None,
+            stop_at_loop_entry: false,
             id_gen,
             vfs,
             initial_state: None,
